@@ -42,6 +42,7 @@ const (
 	OpZext    // K=extra bits
 	OpSext    // K=extra bits
 	OpUF      // Name = function symbol
+	OpTable   // constant lookup table Tab indexed by A[0]; out-of-range index yields Tab[len-1]
 )
 
 var opNames = map[Op]string{
@@ -59,6 +60,7 @@ type Term struct {
 	K    uint64
 	K2   uint64
 	Name string
+	Tab  []uint64
 	id   int
 }
 
@@ -159,6 +161,9 @@ func (tb *TB) Not(a *Term) *Term {
 	if a.Op == OpNot {
 		return a.A[0]
 	}
+	if a.Op == OpTable {
+		return tb.tableMap(a, 0, func(k uint64) uint64 { return 1 - k&1 })
+	}
 	return tb.mk(&Term{Op: OpNot, A: []*Term{a}})
 }
 
@@ -258,6 +263,49 @@ func (tb *TB) Eq(a, b *Term) *Term {
 			return tb.Not(a)
 		}
 	}
+	if a.W > 0 {
+		if b.IsConst() && a.Op == OpTable {
+			bk := b.K
+			return tb.tableMap(a, 0, func(k uint64) uint64 {
+				if k == bk {
+					return 1
+				}
+				return 0
+			})
+		}
+		if a.IsConst() && b.Op == OpTable {
+			return tb.Eq(b, a)
+		}
+		if a.Op == OpTable && b.Op == OpTable && a.Name == b.Name && a.A[0].W == b.A[0].W {
+			// same table, injective on its domain: compare the indices
+			seen := make(map[uint64]bool, len(a.Tab))
+			inj := true
+			for _, v := range a.Tab {
+				if seen[v] {
+					inj = false
+					break
+				}
+				seen[v] = true
+			}
+			if inj {
+				return tb.Eq(a.A[0], b.A[0])
+			}
+		}
+		if b.IsConst() && isLeafTree(a) {
+			bk := b.K
+			if r, ok := tb.leafMap(a, 0, func(k uint64) uint64 {
+				if k == bk {
+					return 1
+				}
+				return 0
+			}); ok {
+				return r
+			}
+		}
+		if a.IsConst() && isLeafTree(b) {
+			return tb.Eq(b, a)
+		}
+	}
 	if a.id > b.id {
 		a, b = b, a
 	}
@@ -329,6 +377,27 @@ func (tb *TB) Bin(op Op, a, b *Term) *Term {
 			return tb.Const(uint64(sx>>y), w)
 		}
 	}
+	noDiv := op != OpBvUdiv && op != OpBvUrem && op != OpBvSdiv && op != OpBvSrem
+	if b.IsConst() && a.Op == OpTable && noDiv {
+		bk := b.K
+		return tb.tableMap(a, w, func(k uint64) uint64 { return tb.Bin(op, tb.Const(k, w), tb.Const(bk, w)).K })
+	}
+	if a.IsConst() && b.Op == OpTable && noDiv {
+		ak := a.K
+		return tb.tableMap(b, w, func(k uint64) uint64 { return tb.Bin(op, tb.Const(ak, w), tb.Const(k, w)).K })
+	}
+	if b.IsConst() && isLeafTree(a) && op != OpBvUdiv && op != OpBvUrem && op != OpBvSdiv && op != OpBvSrem {
+		bk := b.K
+		if r, ok := tb.leafMap(a, w, func(k uint64) uint64 { return tb.Bin(op, tb.Const(k, w), tb.Const(bk, w)).K }); ok {
+			return r
+		}
+	}
+	if a.IsConst() && isLeafTree(b) && op != OpBvUdiv && op != OpBvUrem && op != OpBvSdiv && op != OpBvSrem {
+		ak := a.K
+		if r, ok := tb.leafMap(b, w, func(k uint64) uint64 { return tb.Bin(op, tb.Const(ak, w), tb.Const(k, w)).K }); ok {
+			return r
+		}
+	}
 	// cheap identities
 	switch op {
 	case OpBvAdd, OpBvOr, OpBvXor:
@@ -390,6 +459,26 @@ func (tb *TB) Cmp(op Op, a, b *Term) *Term {
 	if a == b {
 		return tb.Bool(op == OpBvUle || op == OpBvSle)
 	}
+	if b.IsConst() && a.Op == OpTable {
+		bk, w := b.K, a.W
+		return tb.tableMap(a, 0, func(k uint64) uint64 { return tb.Cmp(op, tb.Const(k, w), tb.Const(bk, w)).K })
+	}
+	if a.IsConst() && b.Op == OpTable {
+		ak, w := a.K, b.W
+		return tb.tableMap(b, 0, func(k uint64) uint64 { return tb.Cmp(op, tb.Const(ak, w), tb.Const(k, w)).K })
+	}
+	if b.IsConst() && isLeafTree(a) {
+		bk, w := b.K, a.W
+		if r, ok := tb.leafMap(a, 0, func(k uint64) uint64 { return tb.Cmp(op, tb.Const(k, w), tb.Const(bk, w)).K }); ok {
+			return r
+		}
+	}
+	if a.IsConst() && isLeafTree(b) {
+		ak, w := a.K, b.W
+		if r, ok := tb.leafMap(b, 0, func(k uint64) uint64 { return tb.Cmp(op, tb.Const(ak, w), tb.Const(k, w)).K }); ok {
+			return r
+		}
+	}
 	return tb.mk(&Term{Op: op, W: 0, A: []*Term{a, b}})
 }
 
@@ -405,6 +494,120 @@ func (tb *TB) Un(op Op, a *Term) *Term {
 	return tb.mk(&Term{Op: op, W: a.W, A: []*Term{a}})
 }
 
+// Table builds the lookup Tab[x] (element width w). The caller guarantees x < len(tab) on this path
+// (bounds check already decided), so entries beyond the domain of x are irrelevant.
+func (tb *TB) Table(tab []uint64, w int, x *Term) *Term {
+	if x.IsConst() {
+		k := x.K
+		if k >= uint64(len(tab)) {
+			k = uint64(len(tab) - 1)
+		}
+		return tb.Const(tab[k], w)
+	}
+	// compose with an inner table
+	if x.Op == OpTable {
+		inner := x.Tab
+		nt := make([]uint64, len(inner))
+		for k, v := range inner {
+			if v >= uint64(len(tab)) {
+				v = uint64(len(tab) - 1)
+			}
+			nt[k] = tab[v]
+		}
+		return tb.Table(nt, w, x.A[0])
+	}
+	// domain of x
+	dom := uint64(len(tab))
+	if x.W <= 16 && (uint64(1)<<uint(x.W)) < dom {
+		dom = uint64(1) << uint(x.W)
+	}
+	if x.Op == OpBvAnd {
+		for _, a := range x.A {
+			if a.IsConst() && a.K+1 < dom && a.K&(a.K+1) == 0 {
+				dom = a.K + 1
+			}
+		}
+	}
+	if x.Op == OpExtract && (uint64(1)<<uint(x.W)) < dom {
+		dom = uint64(1) << uint(x.W)
+	}
+	ident, constant := true, true
+	for k := uint64(0); k < dom; k++ {
+		if tab[k]&mask64(w) != k&mask64(w) || (w > 0 && w < 64 && k > mask(w)) {
+			ident = false
+		}
+		if tab[k] != tab[0] {
+			constant = false
+		}
+	}
+	if constant {
+		return tb.Const(tab[0], w)
+	}
+	if ident && w > 0 {
+		return tb.Zext(x, w) // Zext truncates when narrower
+	}
+	tt := tab[:dom]
+	var sb strings.Builder
+	for _, v := range tt {
+		fmt.Fprintf(&sb, "%x.", v)
+	}
+	return tb.mk(&Term{Op: OpTable, W: w, A: []*Term{x}, Name: sb.String(), Tab: append([]uint64{}, tt...)})
+}
+
+// tableMap applies f to every entry of table term t.
+func (tb *TB) tableMap(t *Term, w int, f func(k uint64) uint64) *Term {
+	nt := make([]uint64, len(t.Tab))
+	for k, v := range t.Tab {
+		nt[k] = f(v) & mask64(w)
+	}
+	return tb.Table(nt, w, t.A[0])
+}
+
+// leafMap applies f to every constant leaf of an ite tree t (whose leaves are all constants),
+// producing a tree of width w. ok=false if t is not such a tree (or is too large).
+func (tb *TB) leafMap(t *Term, w int, f func(k uint64) uint64) (*Term, bool) {
+	memo := map[int]*Term{}
+	budget := 4096
+	var rec func(x *Term) (*Term, bool)
+	rec = func(x *Term) (*Term, bool) {
+		if r, ok := memo[x.id]; ok {
+			return r, r != nil
+		}
+		budget--
+		if budget < 0 {
+			return nil, false
+		}
+		var r *Term
+		switch x.Op {
+		case OpConst:
+			r = tb.Const(f(x.K), w)
+		case OpIte:
+			a, ok1 := rec(x.A[1])
+			if !ok1 {
+				memo[x.id] = nil
+				return nil, false
+			}
+			b, ok2 := rec(x.A[2])
+			if !ok2 {
+				memo[x.id] = nil
+				return nil, false
+			}
+			r = tb.Ite(x.A[0], a, b)
+		default:
+			memo[x.id] = nil
+			return nil, false
+		}
+		memo[x.id] = r
+		return r, true
+	}
+	return rec(t)
+}
+
+// isLeafTree reports (cheaply) whether t looks like an ite tree with a constant somewhere at the top.
+func isLeafTree(t *Term) bool {
+	return t.Op == OpIte && t.W > 0 && (t.A[1].IsConst() || t.A[2].IsConst())
+}
+
 func (tb *TB) Extract(a *Term, hi, lo int) *Term {
 	w := hi - lo + 1
 	if lo == 0 && w == a.W {
@@ -415,6 +618,14 @@ func (tb *TB) Extract(a *Term, hi, lo int) *Term {
 	}
 	if (a.Op == OpZext || a.Op == OpSext) && hi < a.A[0].W {
 		return tb.Extract(a.A[0], hi, lo)
+	}
+	if a.Op == OpTable {
+		return tb.tableMap(a, w, func(k uint64) uint64 { return k >> uint(lo) })
+	}
+	if isLeafTree(a) {
+		if r, ok := tb.leafMap(a, w, func(k uint64) uint64 { return k >> uint(lo) }); ok {
+			return r
+		}
 	}
 	return tb.mk(&Term{Op: OpExtract, W: w, K: uint64(hi), K2: uint64(lo), A: []*Term{a}})
 }
@@ -429,6 +640,14 @@ func (tb *TB) Zext(a *Term, to int) *Term {
 	if a.IsConst() {
 		return tb.Const(a.K, to)
 	}
+	if a.Op == OpTable {
+		return tb.tableMap(a, to, func(k uint64) uint64 { return k })
+	}
+	if isLeafTree(a) {
+		if r, ok := tb.leafMap(a, to, func(k uint64) uint64 { return k }); ok {
+			return r
+		}
+	}
 	return tb.mk(&Term{Op: OpZext, W: to, K: uint64(to - a.W), A: []*Term{a}})
 }
 
@@ -441,6 +660,16 @@ func (tb *TB) Sext(a *Term, to int) *Term {
 	}
 	if a.IsConst() {
 		return tb.Const(uint64(sext64(a.K, a.W)), to)
+	}
+	if a.Op == OpTable {
+		aw := a.W
+		return tb.tableMap(a, to, func(k uint64) uint64 { return uint64(sext64(k, aw)) })
+	}
+	if isLeafTree(a) {
+		aw := a.W
+		if r, ok := tb.leafMap(a, to, func(k uint64) uint64 { return uint64(sext64(k, aw)) }); ok {
+			return r
+		}
 	}
 	return tb.mk(&Term{Op: OpSext, W: to, K: uint64(to - a.W), A: []*Term{a}})
 }
@@ -500,6 +729,23 @@ func body(t *Term) string {
 		fmt.Fprintf(&sb, "((_ zero_extend %d) %s)", t.K, ref(t.A[0]))
 	case OpSext:
 		fmt.Fprintf(&sb, "((_ sign_extend %d) %s)", t.K, ref(t.A[0]))
+	case OpTable:
+		x := ref(t.A[0])
+		xw := t.A[0].W
+		lit := func(v uint64) string { return constLit(&Term{Op: OpConst, W: t.W, K: v}) }
+		n := len(t.Tab)
+		// group runs of equal values to keep the chain short: compare with the default (last) value
+		def := t.Tab[n-1]
+		closing := 0
+		for k := 0; k < n-1; k++ {
+			if t.Tab[k] == def {
+				continue
+			}
+			fmt.Fprintf(&sb, "(ite (= %s %s) %s ", x, constLit(&Term{Op: OpConst, W: xw, K: uint64(k)}), lit(t.Tab[k]))
+			closing++
+		}
+		sb.WriteString(lit(def))
+		sb.WriteString(strings.Repeat(")", closing))
 	case OpUF:
 		if len(t.A) == 0 {
 			sb.WriteString(smtName(t.Name))
@@ -624,6 +870,12 @@ func Eval(t *Term, env map[string]uint64, memo map[int]uint64) uint64 {
 		r = ^a(0) & mask(t.W)
 	case OpBvNeg:
 		r = -a(0) & mask(t.W)
+	case OpTable:
+		k := a(0)
+		if k >= uint64(len(t.Tab)) {
+			k = uint64(len(t.Tab) - 1)
+		}
+		r = t.Tab[k]
 	case OpUF:
 		panic("Eval: UF")
 	default:
